@@ -42,7 +42,7 @@ func c14genPlan(rt *rapid.T) c14plan {
 	for i := 0; i < n; i++ {
 		id++
 		c := rapid.IntRange(0, p.NClients-1).Draw(rt, fmt.Sprintf("c%d", i))
-		k := rapid.SampledFrom([]string{"getmsgs", "getmsgs", "biglist", "pm-victim", "pm-victim", "broadcast", "newsget", "userlist", "keepalive", "chat", "postboard"}).Draw(rt, fmt.Sprintf("k%d", i))
+		k := rapid.SampledFrom([]string{"getmsgs", "getmsgs", "biglist", "pm-victim", "pm-victim", "broadcast", "newsget", "userlist", "keepalive", "chat", "postboard", "clientinfo", "clientinfo", "invite", "fileinfo"}).Draw(rt, fmt.Sprintf("k%d", i))
 		t := hlref.Tran{ID: id}
 		big := func(label string) []byte {
 			return bytes.Repeat([]byte{byte('A' + i%26)}, rapid.SampledFrom([]int{100, 33000, 40000, 60000}).Draw(rt, label))
@@ -60,6 +60,12 @@ func c14genPlan(rt *rapid.T) c14plan {
 			t.Type, t.Fields = hlref.TranGetNewsArtData, []hlref.Field{fld(hlref.FNewsPath, p1("Seed")), fld(hlref.FNewsArtID, hlref.BE32(1)), sfld(hlref.FNewsArtDataFlav, "text/plain")}
 		case "userlist":
 			t.Type = hlref.TranGetUserNameList
+		case "clientinfo": // a request about another connected user: the answer belongs to the requester
+			t.Type, t.Fields = hlref.TranGetClientInfoText, []hlref.Field{fld(hlref.FUserID, hlref.BE16((c+1)%p.NClients+1))}
+		case "invite": // answered to the requester, announced to the other user
+			t.Type, t.Fields = hlref.TranInviteNewChat, []hlref.Field{fld(hlref.FUserID, hlref.BE16((c+1)%p.NClients+1))}
+		case "fileinfo":
+			t.Type, t.Fields = hlref.TranGetFileInfo, []hlref.Field{sfld(hlref.FFileName, "many")}
 		case "keepalive":
 			t.Type = hlref.TranKeepAlive
 		case "chat":
